@@ -96,13 +96,16 @@ def snapshot(state_rep):
     return (np.array(d.table).copy(), np.array(d.phase).copy(), np.array(d.iphase).copy())
 
 
-def compile_traced(circuit, backend, mode, seed=None, init_state=None):
+def compile_traced(circuit, backend, mode, seed=None, init_state=None, comp=None):
     """compile with the real compiler; returns (QuantumState, trace) with trace = [(op object, copy of the classical
-    register array after the op, copy of the state data after the op if the op measures)] per compile_one_gate call"""
-    comp = COMPILERS[backend]()
+    register array after the op, copy of the state data after the op if the op measures)] per compile_one_gate call.
+    comp: an existing compiler instance to be used again (instance-reuse items); default: a fresh instance"""
+    if comp is None:
+        comp = COMPILERS[backend]()
     comp.measurement_determinism = mode
     trace = []
-    real = comp.compile_one_gate
+    real = comp.__dict__.get("_vf_real_one_gate") or comp.compile_one_gate  # the real bound method, also on a re-used instance
+    comp.__dict__["_vf_real_one_gate"] = real
 
     def monitored(state, op, n_quantum, q_index, classical_registers):
         r = real(state, op, n_quantum, q_index, classical_registers)
@@ -221,8 +224,10 @@ ASPECTS = ["state", "order", "record_final"] + ["record_" + k for k in KINDS.val
 MAX_CANDIDATES = 256
 
 
-def run_case(inp, backend, finals=None):
+def run_case(inp, backend, finals=None, comp=None, circ=None):
     """returns {aspect: symptom or None} for one program on one backend, all three measurement settings.
+    comp: compiler instance used for every compile of this case (default: a fresh one per compile);
+    circ: (circuit, op objects) compiled by every run of this case (default: a fresh circuit per compile).
 
     The textbook run follows the order in which compile handed the operations to compile_one_gate; aspect `order`
     demands that this order is consistent with the program (so the oracle is a textbook run of the program).
@@ -242,12 +247,12 @@ def run_case(inp, backend, finals=None):
 
     runs = [(0, None), (1, None)] + [("probabilistic", s) for s in inp.get("pseeds", [0])]
     for mode, seed in runs:
-        circuit, objs = build_circuit(spec)
+        circuit, objs = build_circuit(spec) if circ is None else circ
         v0 = R.ket0(n)
         ist = None
         if inp.get("init") is not None:
             ist, v0 = initial_state(inp["init"], n, backend)
-        state, trace = compile_traced(circuit, backend, mode, seed, ist)
+        state, trace = compile_traced(circuit, backend, mode, seed, ist, comp=comp)
         tag = f"[mode={mode}{'' if seed is None else ' seed=' + str(seed)}] "
 
         ov = order_violation(spec, objs, trace)
@@ -492,6 +497,248 @@ def reset_case(inp):
     return None
 
 
+# ------------------------------------------------------------------ repeated use of one compiler instance / one circuit object
+def _first_bad(r):
+    return next((f"{a}: {r[a]}" for a in ASPECTS if r[a]), None)
+
+
+def _split(spec):
+    return f"({spec['ne']}e,{spec['np']}p)"
+
+
+def instance_reuse(inp, backend):
+    """inp: {"seq": [{"prog", "pseeds"}, ...]}.  ONE compiler instance compiles the programs one after the other (each
+    under forced 0, forced 1 and 'probabilistic', i.e. >= 3 compilations per program on the same instance); every single
+    result / record / order is the textbook one of the program compiled, whatever the instance compiled before"""
+    comp = COMPILERS[backend]()
+    hist = []
+    for k, sub in enumerate(inp["seq"]):
+        bad = _first_bad(run_case(sub, backend, comp=comp))
+        if bad:
+            return (f"program #{k} {_split(sub['prog'])} compiled by a {_CLS[backend]} instance that compiled "
+                    f"{hist or 'nothing'} before: {bad}")
+        hist.append(_split(sub["prog"]))
+    return None
+
+
+def instance_reuse_stabilizer(inp):
+    return instance_reuse(inp, "stabilizer")
+
+
+def instance_reuse_dm(inp):
+    return instance_reuse(inp, "dm")
+
+
+_B_REUSE = ("sequences of programs compiled by ONE compiler instance, each result compared with the textbook run: (a) all 196 ordered "
+            "pairs of the 14 register configurations with 1..4 qubits, each configuration with its signature program (a different "
+            "Clifford word on every register, CNOT/CZ between first/last emitter and photon, a Z-measure, a classical-CNOT and a "
+            "measure-CNOT-reset where the registers exist); (b) for every total 2..4 the chain of all emitter/photon splits in both "
+            "directions; (c) {N} seeded random sequences of 3-4 random programs (<=20 ops, <=5 qubits) in which consecutive programs "
+            "have equal totals but different splits with probability 1/2; modes 0, 1 and 'probabilistic' per program")
+for _b in ("stabilizer", "dm"):
+    S.item(f"{_CLS[_b]}.compile.instance_reuse", _SITE[_b] + " ; graphiq.backends.compiler_base:CompilerBase.compile", _B_REUSE,
+           clause="for EVERY circuit the backend yields the textbook state (photons indexed before emitters of THAT circuit) - also when the "
+                  "compiler object has compiled other circuits (other register splits, other sizes) before")(
+        instance_reuse_stabilizer if _b == "stabilizer" else instance_reuse_dm)
+
+
+@S.item("compile.circuit_object_reuse", site="graphiq.backends.compiler_base:CompilerBase.compile",
+        bound="{N} seeded random programs (<=20 ops, <=5 qubits) + the 14 signature programs: the SAME circuit object is compiled by a "
+              "stabilizer instance, a density-matrix instance, the same two instances again, two fresh instances and the first "
+              "instances once more (each: modes 0, 1, 'probabilistic'), then 1-3 further operations are add()ed to the same object and "
+              "it is compiled again by the used and by fresh instances; every result is compared with the textbook run of the "
+              "program the object holds at that moment",
+        clause="for EVERY circuit both backends yield the textbook state - also for a circuit object that was compiled before (by "
+               "either backend) or extended after a compilation")
+def circuit_reuse_case(inp):
+    spec = inp["prog"]
+    circuit, objs = build_circuit(spec)
+    a_s, a_d = StabilizerCompiler(), DensityMatrixCompiler()
+    plan = [("stabilizer", a_s, "first"), ("dm", a_d, "first"), ("stabilizer", a_s, "same instance again"), ("dm", a_d, "same instance again"),
+            ("dm", None, "fresh instance"), ("stabilizer", None, "fresh instance"), ("dm", a_d, "first instance, third time")]
+    for k, (backend, comp, what) in enumerate(plan):
+        bad = _first_bad(run_case(inp, backend, comp=comp, circ=(circuit, objs)))
+        if bad:
+            return f"compilation round #{k} of the same circuit object ({backend}, {what}): {bad}"
+    ext = inp.get("ext") or []
+    if ext:
+        for op in ext:
+            o = make_op(op)
+            circuit.add(o)
+            objs.append(o)
+        inp2 = dict(inp, prog=dict(spec, ops=list(spec["ops"]) + [list(o) for o in ext]))
+        for backend, comp, what in (("stabilizer", a_s, "used instance"), ("dm", a_d, "used instance"), ("stabilizer", None, "fresh instance"), ("dm", None, "fresh instance")):
+            bad = _first_bad(run_case(inp2, backend, comp=comp, circ=(circuit, objs)))
+            if bad:
+                return f"after adding {ext} to the compiled circuit object ({backend}, {what}): {bad}"
+    return None
+
+
+@S.item("StabilizerCompiler.compile.state_many_registers", site=_SITE_S,
+        bound="{N} seeded random programs of <=43 ops on 12..15 qubits with 11..12 photon registers and 1..3 emitters (every 4th: 11 emitters "
+              "and 1..2 photons); registers number 10 and the highest one are always used; 2 classical registers, <=6 measuring ops; "
+              "modes 0, 1 and 'probabilistic'",
+        clause=_C_STATE + " - register numbers with two digits, >= 3 emitters")
+def many_registers_stab(inp):
+    return _first_bad(run_case(inp, "stabilizer"))
+
+
+@S.item("DensityMatrixCompiler.compile.state_six_seven_qubits", site=_SITE_D,
+        bound="{N} seeded random programs of <=25 ops on 6..7 qubits with >= 3 emitters and >= 2 photons, 2 classical registers, <=5 measuring ops; "
+              "modes 0, 1 and 'probabilistic'; both backends (the stabilizer result is checked by the same oracle)",
+        clause=_C_STATE + " - >= 3 emitters, sizes above the 5-qubit bound of the random items")
+def six_seven_dm(inp):
+    return _first_bad(run_case(inp, "dm")) or _first_bad(run_case(inp, "stabilizer"))
+
+
+_SIG_E = [["H"], ["X"], ["P", "H"], ["H", "X"], ["PD", "H"]]       # |+>, |1>, |+i>, |->, |-i>   (emitter i)
+_SIG_P = [["H", "P"], ["Y"], ["H"], ["P", "H", "Z"], ["X", "H"]]   # photon j
+
+
+def signature_program(ne, np_):
+    """a program on (ne emitters, np_ photons) in which every register is acted on differently, so that any gate landing on
+    another register than the one named changes the state"""
+    ops = []
+    for i in range(ne):
+        ops.append(["w", _SIG_E[i % 5], "e", i])
+    for j in range(np_):
+        ops.append(["w", _SIG_P[j % 5], "p", j])
+    if ne and np_:
+        ops.append(["cx", "e", 0, "p", 0])
+        ops.append(["cz", "e", ne - 1, "p", np_ - 1])
+        ops.append(["g", "P", "e", 0])
+        ops.append(["ccx", "p", np_ - 1, "e", ne - 1, 0])
+        ops.append(["g", "H", "e", ne - 1])
+        ops.append(["mcr", "e", 0, "p", 0, 0])
+    elif ne + np_ >= 2:
+        t = "e" if ne else "p"
+        ops.append(["cx", t, 0, t, 1])
+        ops.append(["g", "P", t, 1])
+        ops.append(["cz", t, ne + np_ - 1, t, 0])
+    t, last = ("e", ne - 1) if ne else ("p", np_ - 1)
+    ops.append(["g", "H", t, last])
+    ops.append(["mz", t, last, 0])
+    ops.append(["g", "PD", t, 0])
+    return {"ne": ne, "np": np_, "nc": 1, "ops": ops}
+
+
+def random_program_on(rng, ne, np_, max_len, nc=1, p_measure=0.15, max_meas=6):
+    """seeded random program on a GIVEN register configuration (same op mix as refsem.circuits.random_program)"""
+    q = RC.regs(ne, np_)
+    n = len(q)
+    ops = []
+    nmeas = 0
+    for _ in range(int(rng.integers(max(1, max_len // 3), max_len + 1))):
+        u = rng.random()
+        meas_ok = nc > 0 and nmeas < max_meas
+        if n >= 2 and u < 0.30:
+            i, j = rng.choice(n, size=2, replace=False)
+            (ct, c), (tt, t) = q[int(i)], q[int(j)]
+            ops.append([["cx", "cz"][int(rng.integers(2))], ct, c, tt, t])
+        elif meas_ok and n >= 2 and u < 0.30 + p_measure * 0.75:
+            i, j = rng.choice(n, size=2, replace=False)
+            (ct, c), (tt, t) = q[int(i)], q[int(j)]
+            ops.append([["ccx", "ccz", "mcr"][int(rng.integers(3))], ct, c, tt, t, int(rng.integers(nc))])
+            nmeas += 1
+        elif meas_ok and u < 0.30 + p_measure:
+            rt, r = q[int(rng.integers(n))]
+            ops.append(["mz", rt, r, int(rng.integers(nc))])
+            nmeas += 1
+        elif u < 0.30 + p_measure + 0.15:
+            rt, r = q[int(rng.integers(n))]
+            k = int(rng.integers(1, 5))
+            ops.append(["w", [RC.ONE_Q[int(x)] for x in rng.integers(0, 7, size=k)], rt, r])
+        else:
+            rt, r = q[int(rng.integers(n))]
+            ops.append(["g", RC.ONE_Q[int(rng.integers(7))], rt, r])
+    return {"ne": ne, "np": np_, "nc": nc, "ops": ops}
+
+
+CONFIGS14 = [(ne, n - ne) for n in (1, 2, 3, 4) for ne in range(n + 1)]
+
+
+def domain_reuse(tier, seed):
+    rng = np.random.default_rng(seed + 404)
+    seqs = []
+    sig = {c: signature_program(*c) for c in CONFIGS14}
+    for a in CONFIGS14:
+        for b in CONFIGS14:
+            seqs.append([sig[a], sig[b]])
+    for n in (2, 3, 4):
+        chain = [sig[(ne, n - ne)] for ne in range(n + 1)]
+        seqs.append(chain)
+        seqs.append(chain[::-1])
+    N = 400 if tier == "thorough" else 70
+    for _ in range(N):
+        k = int(rng.integers(3, 5))
+        n = int(rng.integers(2, 6))
+        ne = int(rng.integers(0, n + 1))
+        s = []
+        for _j in range(k):
+            s.append(random_program_on(rng, ne, n - ne, 20, nc=int(rng.integers(1, 3))))
+            if rng.random() < 0.5:  # same total, another split
+                ne = int((ne + rng.integers(1, n + 1)) % (n + 1))
+            else:
+                n = int(rng.integers(1, 6))
+                ne = int(rng.integers(0, n + 1))
+        seqs.append(s)
+    out = []
+    for i, s in enumerate(seqs):
+        out.append({"seq": [{"prog": p, "pseeds": _pseeds(seed, 31 * i + j, 1)} for j, p in enumerate(s)]})
+    return out, N
+
+
+def _resplit(inp):
+    """non-trivial for the reuse items: two consecutive programs with the same total and different splits"""
+    s = [x["prog"] for x in inp["seq"]]
+    return any(RC.n_qubits(a) == RC.n_qubits(b) and a["np"] != b["np"] for a, b in zip(s, s[1:]))
+
+
+def domain_circuit_reuse(tier, seed):
+    rng = np.random.default_rng(seed + 505)
+    N = 300 if tier == "thorough" else 50
+    progs = [signature_program(*c) for c in CONFIGS14]
+    for _ in range(N):
+        n = int(rng.integers(1, 6))
+        ne = int(rng.integers(0, n + 1))
+        progs.append(random_program_on(rng, ne, n - ne, 20, nc=int(rng.integers(1, 3))))
+    out = []
+    for i, p in enumerate(progs):
+        ext = random_program_on(rng, p["ne"], p["np"], 3, nc=p["nc"], p_measure=0.3)["ops"]
+        out.append({"prog": p, "pseeds": _pseeds(seed, 17 * i, 1), "ext": ext})
+    return out, N
+
+
+def domain_many(tier, seed):
+    rng = np.random.default_rng(seed + 606)
+    N = 120 if tier == "thorough" else 24
+    out = []
+    for i in range(N):
+        if i % 4 == 3:
+            ne, np_ = 11, int(rng.integers(1, 3))
+        else:
+            ne, np_ = int(rng.integers(1, 4)), int(rng.integers(11, 13))
+        p = random_program_on(rng, ne, np_, 40, nc=2, p_measure=0.12, max_meas=6)
+        # make sure registers >= 10 are really used
+        t = "p" if np_ > ne else "e"
+        hi = max(ne, np_) - 1
+        p["ops"] = [["g", "H", t, hi], ["cx", t, hi, "e" if t == "p" else "p", 0], ["w", ["P", "H"], t, 10]] + p["ops"]
+        out.append({"prog": p, "pseeds": _pseeds(seed, 13 * i, 1)})
+    return out, N
+
+
+def domain_six_seven(tier, seed):
+    rng = np.random.default_rng(seed + 707)
+    N = 100 if tier == "thorough" else 20
+    out = []
+    for i in range(N):
+        n = int(rng.integers(6, 8))
+        ne = int(rng.integers(3, n - 1))
+        p = random_program_on(rng, ne, n - ne, 25, nc=2, p_measure=0.15, max_meas=5)
+        out.append({"prog": p, "pseeds": _pseeds(seed, 11 * i, 1)})
+    return out, N
+
+
 # ------------------------------------------------------------------ driver
 def multi_map(suite, fn, mapping, inputs, suffix="", nontrivial=None):
     """run fn (returning {key: symptom}) once per input on a fork pool and record the result under every mapped item"""
@@ -644,6 +891,21 @@ def run(tier, seed):
     S.map("DensityMatrixCompiler.compile.forced_outcome_under_rounding", domain_float())
     S.map("reg_to_index_func.photons_first", [[a, b] for a in range(7) for b in range(7)])
     S.map("MeasurementCNOTandReset.reset_leaves_zero", domain_reset(tier, seed), nontrivial=nt)
+
+    reuse, N = domain_reuse(tier, seed)
+    for b in ("stabilizer", "dm"):
+        it = S.items[f"{_CLS[b]}.compile.instance_reuse"]
+        it.bound = it.bound.replace("{N}", str(N))
+        S.map(it.name, reuse, nontrivial=_resplit)
+    cre, N = domain_circuit_reuse(tier, seed)
+    S.items["compile.circuit_object_reuse"].bound = S.items["compile.circuit_object_reuse"].bound.replace("{N}", str(N))
+    S.map("compile.circuit_object_reuse", cre, nontrivial=nt)
+    many, N = domain_many(tier, seed)
+    S.items["StabilizerCompiler.compile.state_many_registers"].bound = S.items["StabilizerCompiler.compile.state_many_registers"].bound.replace("{N}", str(N))
+    S.map("StabilizerCompiler.compile.state_many_registers", many, nontrivial=nt, chunksize=1)
+    six, N = domain_six_seven(tier, seed)
+    S.items["DensityMatrixCompiler.compile.state_six_seven_qubits"].bound = S.items["DensityMatrixCompiler.compile.state_six_seven_qubits"].bound.replace("{N}", str(N))
+    S.map("DensityMatrixCompiler.compile.state_six_seven_qubits", six, nontrivial=nt, chunksize=1)
     S.note("classical record observed by wrapping the compiler instance's compile_one_gate (the GRAPHIQ_VERIF hook of the property anchors does not exist in /repo)")
     S.note("the textbook run follows the order in which compile handed the operations to compile_one_gate (checked by the `order` items to be consistent with the program); probabilistic mode: np.random.seed(seed) before compile, the state after every measuring op is matched against the outcome branches of non-zero probability, and the record is demanded to equal a branch consistent with all observed states")
     return S
